@@ -164,6 +164,20 @@ CHECKS = {
              "specification requires equal verdicts, message sets, layer tags and label sources after mapping names "
              "back, and the specification's own outcome for each rendering.",
         design_ref="6 (C14)"),
+    "C15": dict(
+        technique="TLA+ state machine of the whole library (Session.tla: New / Apply / Grow over module, layer and "
+                  "diagram rules) model-checked with TLC (Pure, ObjectStable, Functional, Reapply); tlc -simulate "
+                  "histories replayed on real objects sharing real architectures and validated by the trace "
+                  "specifications; 'same' law events for permuted arguments / re-scans; traces compared across hash seeds",
+        text="Session.tla makes the outcome of Apply a function of <<configuration, architecture>> and Apply a no-op on "
+             "architectures and on the rule object's configuration; TLC checks this on all short histories. Histories of "
+             "40 calls generated by tlc -simulate interleave module rules, layer rules and diagram rules on shared "
+             "evaluables with rule objects re-applied to several architectures; every Apply is also evaluated in "
+             "isolation and must give the same verdict and message, and every step leaves all architectures unchanged. "
+             "Permuted subject/object/layer/exclusion lists, shuffled directory enumeration and re-scans are related by "
+             "'same' laws, and a mixed bag of episodes is run in fresh interpreters under 8 PYTHONHASHSEED values whose "
+             "traces must be identical.",
+        design_ref="6 (C15)"),
     "C17": dict(
         technique="TLA+ specification of plot labels (Labels.tla) model-checked with TLC over all alias maps of a "
                   "bounded module tree; every emitted alias map replayed into real visualize() calls observed at the "
